@@ -8,6 +8,7 @@ import AioMySensors.Model.Version
 import AioMySensors.Model.Handlers
 import AioMySensors.Model.WriteSpec
 import AioMySensors.Model.RegistrySpec
+import AioMySensors.Model.Objects
 
 open AioMySensors
 
@@ -51,6 +52,9 @@ structure DState where
   env : Env := {}
   /-- the registry specification (`Model/RegistrySpec.lean`), advanced by `srecv` only -/
   spec : SpecSt := {}
+  /-- the caller's `Message` objects and the sleep-buffer entries that are one of them (`Model/Objects.lean`) -/
+  heap : PDict ObjId Msg := []
+  refs : PDict Key ObjId := []
 
 def showBool (b : Bool) : String := if b then "1" else "0"
 
@@ -103,6 +107,18 @@ def parseFaults (s : String) : Option (List Fault) :=
 def parseBool : String → Option Bool
   | "1" => some true | "0" => some false | _ => none
 
+def showObs (o : Obs) : String :=
+  (match o.out with
+   | .ok (some m) => "ok " ++ showMsg m
+   | .ok none => "ok"
+   | .error e => showExn e) ++ showWrites o.writes
+
+/-- One operation of `Model/Objects.lean` (`ostep`) on the gateway and the caller's objects. -/
+def runO (st : DState) (ops : List OOp) : DState × String :=
+  let o : OSt := { gw := st.gw, heap := st.heap, refs := st.refs }
+  let (o', obs) := orun o ops
+  ({ st with gw := o'.gw, heap := o'.heap, refs := o'.refs }, match obs.getLast? with | some ob => showObs ob | none => "bad-op")
+
 def runM {α : Type} (st : DState) (faults : List Fault) (x : M α) (showA : α → String) : DState × String :=
   match x { st := st.gw, faults := faults } with
   | (.ok a, w) => ({ st with gw := w.st }, showA a ++ showWrites w.writes)
@@ -153,11 +169,12 @@ def stepCore (st : DState) (line : String) : DState × String :=
     match parseBool metric with
     | none => (st, "bad-op")
     | some mt =>
-      if v = "-" then ({ st with gw := {}, env := { st.env with metric := mt } }, "ok")
+      if v = "-" then ({ st with gw := {}, heap := [], refs := [], env := { st.env with metric := mt } }, "ok")
       else match decodeStr v with
         | none => (st, "bad-op")
         | some vs => match getProtocol? vs with
-          | some ver => ({ st with gw := { pv := some vs, proto := ver }, env := { st.env with metric := mt } }, "ok")
+          | some ver => ({ st with gw := { pv := some vs, proto := ver }, heap := [], refs := [],
+                                     env := { st.env with metric := mt } }, "ok")
           | none => (st, "bad-op")
   | ["gnode", id, ntype, pv, sn, sv, bat, hb, reboot, sleeping] =>
     (do
@@ -186,7 +203,7 @@ def stepCore (st : DState) (line : String) : DState × String :=
       let line ← decodeStr line; let faults ← parseFaults faults
       let y ← y.toNat?; let mo ← mo.toNat?; let d ← d.toNat?; let h ← h.toNat?; let mi ← mi.toNat?; let sec ← sec.toNat?
       let env := { st.env with year := y, month := mo, day := d, hour := h, minute := mi, second := sec }
-      pure (runM st faults (recv env line) fun m => "ok " ++ showMsg m)).getD (st, "bad-op")
+      pure (runO st [.plain (.recv env line faults)])).getD (st, "bad-op")
   | ["gspec", line, faults, y, mo, d, h, mi, sec] =>
     -- C06's specification (`Model/WriteSpec.lean`) evaluated at the current state; the state is not changed
     (do
@@ -211,7 +228,20 @@ def stepCore (st : DState) (line : String) : DState × String :=
       let obj ← match rest with
         | ["notmsg"] => some none
         | _ => (parseMsg rest).map some
-      pure (runM st faults (apiSend obj buffer) fun _ => "ok")).getD (st, "bad-op")
+      pure (runO st [.plain (.send obj buffer faults)])).getD (st, "bad-op")
+  | "gsendo" :: h :: buffer :: faults :: rest =>
+    -- the caller's object `h` (created reading these fields when `h` is new; otherwise the caller first assigns to
+    -- the attributes that differ), handed to `send`
+    (do
+      let h ← h.toNat?; let buffer ← parseBool buffer; let faults ← parseFaults faults
+      let m ← parseMsg rest
+      pure (runO st [.assign h m, .sendObj h buffer faults])).getD (st, "bad-op")
+  | "gassign" :: h :: rest =>
+    -- the caller assigns to attributes of its object `h` (or creates it) without sending it
+    (do
+      let h ← h.toNat?
+      let m ← parseMsg rest
+      pure (runO st [.assign h m])).getD (st, "bad-op")
   | ["gdump"] => (st, showSt st.gw)
   | ["srecv", line] =>
     match decodeStr line with
